@@ -32,6 +32,7 @@ inductive Ev where
   | connect (c : ConnId) (tls : Bool) | refused (c : ConnId) | hello (c : ConnId) | part (c : ConnId)
   | send (c : ConnId) (r : Req) | gone (c : ConnId) | answer (c : ConnId) | oend (c : ConnId)
   | origin (c : ConnId) | resp (c : ConnId) (cl : Bool) | closed (c : ConnId)
+  | echo (c : ConnId)   -- the client got back through the tunnel what it had sent into it
   | lclose | shutCall | shutRet (isNil : Bool) | closeCall | closeRet | deadline | cancel | runRet
   | known      -- harness marker "closing is certainly set" (not an action; ignored by the acceptor)
   | nolimit    -- configuration marker: the context handed to Shutdown has no deadline (shutdown timeout 0);
@@ -42,7 +43,7 @@ def Ev.action : Ev → Option Action
   | .connect c t => some (.connect c t) | .refused c => some (.connectRefused c)
   | .hello c => some (.hello c) | .part c => some (.sendPartial c) | .send c r => some (.send c r)
   | .gone c => some (.gone c) | .answer c => some (.originAnswer c) | .oend c => some (.originEnd c)
-  | .origin c => some (.originSeen c) | .resp c cl => some (.respSeen c cl)
+  | .origin c => some (.originSeen c) | .resp c cl => some (.respSeen c cl) | .echo c => some (.echoSeen c)
   | .closed c => some (.closedSeen c) | .lclose => some .listenerClose | .shutCall => some .shutdownCall
   | .shutRet n => some (.shutdownRet n) | .closeCall => some .closeCall | .closeRet => some .closeRet
   | .deadline => some .ctxExpire | .cancel => some .cancel | .runRet => some .runRet
@@ -62,7 +63,7 @@ def visible : Action → Option Ev
   | .connect c t => some (.connect c t) | .connectRefused c => some (.refused c)
   | .hello c => some (.hello c) | .sendPartial c => some (.part c) | .send c r => some (.send c r)
   | .gone c => some (.gone c) | .originAnswer c => some (.answer c) | .originEnd c => some (.oend c)
-  | .originSeen c => some (.origin c) | .respSeen c cl => some (.resp c cl)
+  | .originSeen c => some (.origin c) | .respSeen c cl => some (.resp c cl) | .echoSeen c => some (.echo c)
   | .closedSeen c => some (.closed c) | .listenerClose => some .lclose | .shutdownCall => some .shutCall
   | .shutdownRet n => some (.shutRet n) | .closeCall => some .closeCall | .closeRet => some .closeRet
   | .ctxExpire => some .deadline | .cancel => some .cancel | .runRet => some .runRet
@@ -70,7 +71,7 @@ def visible : Action → Option Ev
 
 def Ev.conn? : Ev → Option ConnId
   | .connect c _ | .refused c | .hello c | .part c | .send c _ | .gone c | .answer c | .oend c
-  | .origin c | .resp c _ | .closed c => some c
+  | .origin c | .resp c _ | .closed c | .echo c => some c
   | _ => none
 
 /-! ## per-connection search -/
@@ -117,12 +118,18 @@ def applyMv (s : Sim) : Mv → Option Sim
     if s.x.pc = .backlog ∧ s.listenerOpen ∧ !s.closing then some { s with x := { s.x with pc := .accepted } } else none
   | .swept =>
     if s.sweepMe then some { s with sweepMe := false, x := { s.x with sockClosed := true } } else none
+  | .c .relay =>
+    -- the model lets a tunnel relay any number of round trips; the search needs one per observed echo
+    -- (a client sends its next probe only after it saw the last one come back)
+    if s.x.relayUnseen = 0 then
+      (cstepSeq s.closing s.lockFree s.x [.relay]).map fun x => { s with x := x }
+    else none
   | m => (cstepSeq s.closing s.lockFree s.x m.acts).map fun x => { s with x := x }
 
 def hiddenMoves : List Mv :=
   [.swept, .accept, .c .lockReq, .register, .c .check0, .c .tlsDone, .c .tlsFail, .c .firstByte, .c .idleFail,
    .c .readDone, .c .readFail, .c .check, .c .forward, .c .respReady, .c .writeHead, .c .writeHeadFail, .c .writeDone,
-   .c .writeFail, .c .tunnelEnd, .c .sockClose, .c .counterDec, .unregister]
+   .c .writeFail, .c .relay, .c .tunnelEnd, .c .sockClose, .c .counterDec, .unregister]
 
 def consume (s : Sim) : Item → Option Sim
   | .ev (.connect _ t) =>
@@ -142,6 +149,8 @@ def consume (s : Sim) : Item → Option Sim
     match s.x.unseen with
     | f :: rest => if f = cl then some { s with x := { s.x with unseen := rest } } else none
     | [] => none
+  | .ev (.echo _) =>
+    if s.x.relayUnseen ≠ 0 then some { s with x := { s.x with relayUnseen := s.x.relayUnseen - 1 } } else none
   | .ev (.closed _) => if s.x.sockClosed ∨ s.x.pc = .reset then some s else none
   | .ev _ => some s
   | .mL =>
@@ -431,6 +440,7 @@ def isAnswer (k : ConnId) : Ev → Bool | .answer c => c == k | _ => false
 def isClosed (k : ConnId) : Ev → Bool | .closed c => c == k | _ => false
 def isGone (k : ConnId) : Ev → Bool | .gone c => c == k | _ => false
 def isOend (k : ConnId) : Ev → Bool | .oend c => c == k | _ => false
+def isEcho (k : ConnId) : Ev → Bool | .echo c => c == k | _ => false
 def isDial (k : ConnId) : Ev → Bool | .connect c _ => c == k | .refused c => c == k | _ => false
 
 def countEv (h : Array Ev) (p : Ev → Bool) : Nat := h.foldl (fun n e => if p e then n + 1 else n) 0
@@ -495,7 +505,8 @@ def clauses (h : Array Ev) : List Fail := Id.run do
         if before (some rn) (nth h (isSend k) j) then
           out := out ++ [{ clause := "request-sent-after-shutdown-returned-nil-was-answered", conn := k }]
     | none => pure ()
-    -- (5) a response the origin released after closing was known carries Connection: close
+    -- (5) a response the origin released after closing was known carries Connection: close — except the
+    --     200 of a CONNECT (fixed bytes without a Connection field), which is followed by the tunnel: (8), (9)
     for j in [0:nResp] do
       let a := nth h (isAnswer k) j
       if before known a then
@@ -504,8 +515,8 @@ def clauses (h : Array Ev) : List Fail := Id.run do
           | _ => false
         match (nth h (isResp k) j).bind (fun i => h[i]?) with
         | some (.resp _ false) =>
-          out := out ++ [{ clause := if isConnect then "connect-response-while-closing-without-connection-close"
-                                     else "response-while-closing-without-connection-close", conn := k }]
+          if !isConnect then
+            out := out ++ [{ clause := "response-while-closing-without-connection-close", conn := k }]
         | _ => pure ()
     -- (7) rig a: Run returned although the shutdown deadline had not passed (there is none with shutdown
     --     timeout 0) while a request of this connection was still at its origin (answer released later)
@@ -516,18 +527,30 @@ def clauses (h : Array Ev) : List Fail := Id.run do
           if before (nth h (isOrigin k) j) (some rn) ∧ before (some rn) (nth h (isAnswer k) j) then
             out := out ++ [{ clause := "run-returned-before-the-deadline-with-exchange-pending-at-origin", conn := k }]
     | none => pure ()
-    -- (8) a tunnel that was established before shutdown was requested stays up until its client or its
-    --     origin ends it, unless the shutdown was forced (deadline / Close) first
+    -- (8) a tunnel — established before shutdown was requested, or by a CONNECT whose dial completed
+    --     during the shutdown — stays up until its client or its origin ends it, unless the shutdown was
+    --     forced (deadline / Close) first
+    -- (9) … and it is a tunnel: what the client sends into it comes back (the harness probes it at once),
+    --     unless the client left or the shutdown was forced first
     for j in [0:nResp] do
       let isConnect : Bool := match (nth h (isSend k) j).bind (fun i => h[i]?) with
         | some (.send _ r) => r.connect
         | _ => false
       let r := nth h (isResp k) j
-      if isConnect && before r begun then
+      if isConnect && r.isSome then
         let x := posOf h (isClosed k)
         let caused : Bool := before (posOf h (isGone k)) x || before (posOf h (isOend k)) x || before forced x
         if x.isSome && !caused then
-          out := out ++ [{ clause := "tunnel-established-before-shutdown-was-cut-before-the-deadline", conn := k }]
+          out := out ++ [{ clause := if before r begun then "tunnel-established-before-shutdown-was-cut-before-the-deadline"
+                                     else "tunnel-established-during-shutdown-was-cut-before-the-deadline", conn := k }]
+        let echoed : Bool := (List.range h.size).any fun i => isEcho k h[i]! && before r (some i)
+        let excused : Bool := (posOf h (isGone k)).isSome || (match forced with
+          | some f => match x with
+            | some x => f < x
+            | none => true
+          | none => false)
+        if !echoed && !excused then
+          out := out ++ [{ clause := "connect-answered-200-but-the-tunnel-relayed-nothing", conn := k }]
   -- (6) Shutdown returns the context's error only after the deadline
   match posOf h (· == .shutRet false) with
   | some e =>
@@ -554,6 +577,7 @@ def parseEv (s : String) : Option Ev :=
   | ["o", k] => do some (.origin (← k.toNat?))
   | ["R", k, cl] => do some (.resp (← k.toNat?) (← parseBool cl))
   | ["x", k] => do some (.closed (← k.toNat?))
+  | ["t", k] => do some (.echo (← k.toNat?))
   | ["L"] => some .lclose
   | ["SC"] => some .shutCall
   | ["SR", n] => do some (.shutRet (← parseBool n))
